@@ -63,7 +63,8 @@ def inline_st(features: set, wild: bool, depth: int = 2):
                                 st.sampled_from(["https://e.org/a", "http://x.y/z?q=1&r=2", "mailto:a@b.c"])))
     if "image" in features:
         leaves.append(st.builds(lambda a, s, t: {"t": "image", "alt": a, "src": s, "title": t}, text_run(False, 0, 2),
-                                st.sampled_from(["img.png", "a/b.svg", "https://e.org/i.gif"]),
+                                st.sampled_from(["img.png", "a/b.svg", "https://e.org/i.gif", "./fig.png", "img/../fig.png", "img//fig.png",
+                                                 "img/", "../up.png", "//host/x.png"]),
                                 st.sampled_from([None, None, "A title"])))
     if "html_inline" in features:
         leaves.append(st.builds(lambda s: {"t": "html_inline", "s": s},
